@@ -129,10 +129,23 @@ def run(ctx):
                               "equal to the formula with that constant)", {"input": {"model": mk, "token": tok}})
         for v in range(nvec):
             names, vals = rand_params(mk, rng)
+            if rng.random() < 0.15:
+                # boundary-coincident parameter values
+                P0 = dict(zip(names, vals))
+                if "E_L" in P0:
+                    c_ = rng.choice(["E", "nu", "both"])
+                    if c_ in ("E", "both"):
+                        P0["E_S"] = P0["E_L"]
+                    if c_ in ("nu", "both"):
+                        P0["nu_S"] = P0["nu_L"] = rng.choice([0.3, 0.1, 0.45])
+                if "nu" in P0:
+                    P0["nu"] = rng.choice([0.0, 0.5])
+                vals = [P0[n_] for n_ in names]
             P = dict(zip(names, vals))
             cp, b_ = P["contact_point"], P["baseline"]
             R = P.get("R", 5e-6)
-            kind = rng.choice(["around-contact", "deep", "all-out", "all-in", "shuffled", "ascending"])
+            kind = rng.choice(["around-contact", "deep", "all-out", "all-in", "shuffled", "ascending", "cycle",
+                               "cycle"])
             if kind == "around-contact":
                 d = np.array([cp, np.nextafter(cp, 1), np.nextafter(cp, -1), cp + 1e-9, cp - 1e-9, cp - 1e-7,
                               cp + 1e-7, cp - 1e-12])
@@ -142,6 +155,11 @@ def run(ctx):
                 d = cp + np.array([0.0, 1e-9, 2e-7, 1e-6, 5e-6])
             elif kind == "all-in":
                 d = cp - np.array([1e-9, 2e-8, 3e-7, 1e-6])
+            elif kind == "cycle":
+                # approach and retract in one array: both end points out of contact, interior in contact
+                a_ = np.linspace(cp + rng.uniform(1e-7, 1e-6), cp - rng.uniform(1e-7, 1e-6), rng.randint(3, 7))
+                r_ = a_[::-1][1:] + rng.choice([0.0, 1e-8])
+                d = np.concatenate([a_, r_]) if rng.random() < 0.7 else np.concatenate([r_[::-1], a_[::-1]])[::-1]
             elif kind == "ascending":
                 d = np.sort(cp + np.array([rng.uniform(-1e-6, 1e-6) for _ in range(8)]))
             else:
@@ -159,6 +177,24 @@ def run(ctx):
             if f.shape != d.shape:
                 ctx.violation(f"shape:{mk}", f"output shape {f.shape} != input shape {d.shape}", {"input": meta})
                 continue
+            # the same values through the public wrapper NaniteFitModel.model(params, delta)
+            pw = md.get_parameter_defaults()
+            for n_, v_ in zip(names, vals):
+                pw[n_].set(value=v_)
+            with warnings.catch_warnings():
+                warnings.simplefilter("ignore")
+                try:
+                    fw = np.asarray(md.model(pw, d.copy()), dtype=float)
+                except BaseException as e:  # noqa
+                    fw = None
+                    ctx.violation(f"wrapper-raises:{mk}:{kind}", f"{mk}.model(params, delta) raises {e!r}",
+                                  {"input": meta})
+            if fw is not None and (fw.shape != f.shape or not np.array_equal(fw, f)):
+                bad_i = int(np.argmax(fw != f)) if fw.shape == f.shape else -1
+                ctx.violation(f"wrapper-differs:{mk}:{kind}",
+                              f"{mk}: NaniteFitModel.model gives {fw[bad_i] if bad_i >= 0 else fw.shape!r} where "
+                              f"model_func gives {f[bad_i] if bad_i >= 0 else f.shape!r} (index {bad_i} of a "
+                              f"'{kind}' array)", {"input": meta})
             for x, fx in zip(d, f):
                 depth = cp - x
                 if depth > 0:
